@@ -13,7 +13,15 @@ Definition len_of (o : option bytes) : N := match o with Some p => blen p | None
 (* ---- C_InitPIN ------------------------------------------------------------------------------------------------------- *)
 (* Token::initUserPIN answers CKR_OK once the session-level guards have passed (model: the PIN is stored) *)
 Definition initpin_env (s : state) (h : N) (x : session) (pin : option bytes) : C_InitPIN.env :=
-  C_InitPIN.mk (fun _ => 1) (sess_state s x) 1 1 (fun _ => CKR_OK) h (ptr_of pin) (len_of pin).
+  fold_right (fun f e => f e) C_InitPIN.default
+    [(C_InitPIN.set_handleManager_getSession (fun _ => 1));
+     (C_InitPIN.set_session_getState (sess_state s x));
+     (C_InitPIN.set_session_getToken 1);
+     (C_InitPIN.set_this_isInitialised 1);
+     (C_InitPIN.set_token_initUserPIN_at1 (fun _ => CKR_OK));
+     (C_InitPIN.set_hSession h);
+     (C_InitPIN.set_pPin (ptr_of pin));
+     (C_InitPIN.set_ulPinLen (len_of pin))].
 
 Theorem initpin_model_is_code (s : state) (h : N) (x : session) (pin : option bytes) :
   st_init s = true -> get_session s h = Some x ->
@@ -42,10 +50,18 @@ Definition set_user_rv (t : token) (po : bytes) : N :=
 Definition set_so_rv (t : token) (po : bytes) : N := if pin_ok (t_sopin t) po then CKR_OK else CKR_PIN_INCORRECT.
 
 Definition setpin_env (s : state) (h : N) (x : session) (t : token) (oldp newp : option bytes) : C_SetPIN.env :=
-  C_SetPIN.mk (fun _ => 1) (sess_state s x) 1 1
-              (fun _ _ => match oldp with Some po => set_so_rv t po | None => 0 end)
-              (fun _ _ => match oldp with Some po => set_user_rv t po | None => 0 end)
-              h (ptr_of oldp) (len_of oldp) (ptr_of newp) (len_of newp).
+  fold_right (fun f e => f e) C_SetPIN.default
+    [(C_SetPIN.set_handleManager_getSession (fun _ => 1));
+     (C_SetPIN.set_session_getState (sess_state s x));
+     (C_SetPIN.set_session_getToken 1);
+     (C_SetPIN.set_this_isInitialised 1);
+     (C_SetPIN.set_token_setSOPIN_at1 (fun _ _ => match oldp with Some po => set_so_rv t po | None => 0 end));
+     (C_SetPIN.set_token_setUserPIN_at2 (fun _ _ => match oldp with Some po => set_user_rv t po | None => 0 end));
+     (C_SetPIN.set_hSession h);
+     (C_SetPIN.set_pOldPin (ptr_of oldp));
+     (C_SetPIN.set_ulOldLen (len_of oldp));
+     (C_SetPIN.set_pNewPin (ptr_of newp));
+     (C_SetPIN.set_ulNewLen (len_of newp))].
 
 Lemma len_range_code_model n : ((n <? 4) || (255 <? n)) = negb (pin_len_ok n).
 Proof.
@@ -91,8 +107,13 @@ Definition slot_inittoken_rv (s : state) (tk : option N) (p : bytes) (label : N)
   end.
 
 Definition inittoken_env (s : state) (tk : option N) (pin : option bytes) (inner : N) : C_InitToken.env :=
-  C_InitToken.mk (fun _ => match tk with Some k => if existsb (fun p => s_tok (snd p) =? k) (st_sessions s) then 1 else 0 | None => 0 end)
-                 (fun _ => 1) (fun _ _ => inner) 1 0 (ptr_of pin) (len_of pin) 0.
+  fold_right (fun f e => f e) C_InitToken.default
+    [(C_InitToken.set_sessionManager_haveSession (fun _ => match tk with Some k => if existsb (fun p => s_tok (snd p) =? k) (st_sessions s) then 1 else 0 | None => 0 end));
+     (C_InitToken.set_slotManager_getSlot (fun _ => 1));
+     (C_InitToken.set_slot_initToken_at1 (fun _ _ => inner));
+     (C_InitToken.set_this_isInitialised 1);
+     (C_InitToken.set_pPin (ptr_of pin));
+     (C_InitToken.set_ulPinLen (len_of pin))].
 
 Theorem inittoken_model_is_code (s : state) (t : tref) (tk : option N) (pin : option bytes) (label inner : N) :
   st_init s = true -> resolve s t = Some tk ->
@@ -128,20 +149,31 @@ Definition login_user_rv (t : token) (p : bytes) : N :=
        | Some up => if pin_ok up p then CKR_OK else CKR_PIN_INCORRECT
        end.
 
+Definition login_env_with (s : state) (h : N) (x : session) (utype ptr len : N) (so_fn user_fn : N -> N) : C_Login.env :=
+  fold_right (fun f e => f e) C_Login.default
+    [(C_Login.set_handleManager_getSession (fun _ => 1));
+     (C_Login.set_sessionManager_haveROSession (fun _ => if existsb (fun q => (s_tok (snd q) =? s_tok x) && negb (s_rw (snd q))) (st_sessions s) then 1 else 0));
+     (C_Login.set_session_getReAuthentication 0);
+     (C_Login.set_session_getToken 1);
+     (C_Login.set_this_isInitialised 1);
+     (C_Login.set_token_loginSO_at3 so_fn);
+     (C_Login.set_token_loginUser_at2 user_fn);
+     (C_Login.set_hSession h);
+     (C_Login.set_userType utype);
+     (C_Login.set_pPin ptr);
+     (C_Login.set_ulPinLen len)].
+(* no re-authentication is pending in the modelled fragment *)
 Definition login_env (s : state) (h : N) (x : session) (t : token) (utype : N) (pin : option bytes) : C_Login.env :=
-  C_Login.mk (fun _ => 1)
-             (fun _ => if existsb (fun q => (s_tok (snd q) =? s_tok x) && negb (s_rw (snd q))) (st_sessions s) then 1 else 0)
-             0 (* no re-authentication pending in the modelled fragment *) 0 1 1
-             (fun _ => match pin with Some p => login_so_rv t p | None => 0 end)
-             (fun _ => match pin with Some p => login_user_rv t p | None => 0 end)
-             (fun _ => 0) h utype (ptr_of pin) (len_of pin).
+  login_env_with s h x utype (ptr_of pin) (len_of pin)
+                 (fun _ => match pin with Some p => login_so_rv t p | None => 0 end)
+                 (fun _ => match pin with Some p => login_user_rv t p | None => 0 end).
 
 Theorem login_model_is_code (s : state) (h : N) (x : session) (t : token) (utype : N) (pin : option bytes) :
   st_init s = true -> get_session s h = Some x -> alookup (s_tok x) (st_tokens s) = Some t ->
   rv_of (snd (step s (OLogin h utype pin))) = Some (C_Login.app (login_env s h x t utype pin)).
 Proof.
   intros Hi Hs Ht. unfold step. rewrite Hi. cbn [negb]. rewrite Hs.
-  unfold login_env. C_Login.open_env. cbn [N.eqb negb].
+  unfold login_env, login_env_with. C_Login.open_env. cbn [N.eqb negb].
   destruct pin as [p|]; cbn [ptr_of len_of N.eqb]; [|reflexivity].
   rewrite Ht. cbv [CKU_SO CKU_USER CKU_CONTEXT_SPECIFIC].
   destruct (utype =? 0) eqn:E0.
@@ -161,8 +193,13 @@ From SoftHSM Require Import Gen_Token.
    manager answering "SO / user logged in" from the model's login state, an empty user PIN blob iff no user PIN is set, and
    SecureDataManager::login* accepting exactly the current PIN *)
 Definition token_loginuser_env (t : token) (p : bytes) : Token_loginUser.env :=
-  Token_loginUser.mk 0 0 true (match t_userpin t with Some _ => 1 | None => 0 end) (is_so (t_login t)) (is_user (t_login t))
-                     (fun _ => match t_userpin t with Some up => pin_ok up p | None => false end) 1 0.
+  fold_right (fun f e => f e) Token_loginUser.default
+    [(Token_loginUser.set_hv2_getTokenFlags_ok true);
+     (Token_loginUser.set_sdm_getUserPINBlob_size (match t_userpin t with Some _ => 1 | None => 0 end));
+     (Token_loginUser.set_sdm_isSOLoggedIn (is_so (t_login t)));
+     (Token_loginUser.set_sdm_isUserLoggedIn (is_user (t_login t)));
+     (Token_loginUser.set_sdm_loginUser (fun _ => match t_userpin t with Some up => pin_ok up p | None => false end));
+     (Token_loginUser.set_this_sdm 1)].
 Theorem login_user_rv_is_code (t : token) (p : bytes) :
   login_user_rv t p = Token_loginUser.app (token_loginuser_env t p).
 Proof.
@@ -174,7 +211,12 @@ Proof.
 Qed.
 
 Definition token_loginso_env (t : token) (p : bytes) : Token_loginSO.env :=
-  Token_loginSO.mk 0 0 true (is_so (t_login t)) (is_user (t_login t)) (fun _ => pin_ok (t_sopin t) p) 1 0.
+  fold_right (fun f e => f e) Token_loginSO.default
+    [(Token_loginSO.set_hv2_getTokenFlags_ok true);
+     (Token_loginSO.set_sdm_isSOLoggedIn (is_so (t_login t)));
+     (Token_loginSO.set_sdm_isUserLoggedIn (is_user (t_login t)));
+     (Token_loginSO.set_sdm_loginSO (fun _ => pin_ok (t_sopin t) p));
+     (Token_loginSO.set_this_sdm 1)].
 Theorem login_so_rv_is_code (t : token) (p : bytes) :
   login_so_rv t p = Token_loginSO.app (token_loginso_env t p).
 Proof.
@@ -188,11 +230,8 @@ Qed.
 Theorem login_chain_is_code (s : state) (h : N) (x : session) (t : token) (utype : N) (p : bytes) :
   st_init s = true -> get_session s h = Some x -> alookup (s_tok x) (st_tokens s) = Some t ->
   rv_of (snd (step s (OLogin h utype (Some p)))) =
-  Some (C_Login.app (C_Login.mk (fun _ => 1)
-          (fun _ => if existsb (fun q => (s_tok (snd q) =? s_tok x) && negb (s_rw (snd q))) (st_sessions s) then 1 else 0)
-          0 0 1 1
-          (fun _ => Token_loginSO.app (token_loginso_env t p)) (fun _ => Token_loginUser.app (token_loginuser_env t p))
-          (fun _ => 0) h utype 1 (blen p))).
+  Some (C_Login.app (login_env_with s h x utype 1 (blen p)
+          (fun _ => Token_loginSO.app (token_loginso_env t p)) (fun _ => Token_loginUser.app (token_loginuser_env t p)))).
 Proof.
   intros Hi Hs Ht. rewrite (login_model_is_code s h x t utype (Some p) Hi Hs Ht).
   unfold login_env. cbn [ptr_of len_of]. rewrite <- login_so_rv_is_code, <- login_user_rv_is_code. reflexivity.
@@ -205,7 +244,15 @@ Proof. destruct x as [|p]; [left; reflexivity|]. destruct p as [[q|q|]|[q|q|]|];
 (* `lr`: whether the loop that looks for a free slot in the session vector leaves the function (it returns CKR_OK, as does
    the code after it: zz_rest) - the decision does not depend on it *)
 Definition opensession_env (s : state) (k flags : N) (lr : bool) : SessionManager_openSession.env :=
-  SessionManager_openSession.mk 0 0 lr 1 true (is_so (tok_login s k)) CKR_OK 1 flags 0 0 1.
+  fold_right (fun f e => f e) SessionManager_openSession.default
+    [(SessionManager_openSession.set_hv3_loop_returns lr);
+     (SessionManager_openSession.set_slot_getToken 1);
+     (SessionManager_openSession.set_token_isInitialized true);
+     (SessionManager_openSession.set_token_isSOLoggedIn (is_so (tok_login s k)));
+     (SessionManager_openSession.set_zz_rest CKR_OK);
+     (SessionManager_openSession.set_slot 1);
+     (SessionManager_openSession.set_flags flags);
+     (SessionManager_openSession.set_phSession 1)].
 Theorem opensession_model_is_code (s : state) (k flags : N) (lr : bool) :
   st_init s = true -> amem k (st_tokens s) = true ->
   match snd (step s (OOpen (TTok k) flags)) with
@@ -227,9 +274,18 @@ Qed.
 (* ---- C_DestroyObject: the guards (handle, write access, CKA_DESTROYABLE) of the model are those of the regenerated code;
    the destruction itself (zz_rest) answers CKR_OK ------------------------------------------------------------------------ *)
 Definition destroy_env (s : state) (h oh : N) (x : session) : C_DestroyObject.env :=
-  let ob := match get_object s oh with Some (_, _, o) => o | None => [] end in
-  C_DestroyObject.mk (fun _ => match get_object s oh with Some _ => 1 | None => 0 end) (fun _ => 1) gen_haveWrite
-                     (fun a d => b2n (obj_bool ob a d)) 1 (sess_state s x) 1 1 CKR_OK h oh.
+  fold_right (fun f e => f e) C_DestroyObject.default
+    [(C_DestroyObject.set_handleManager_getObject (fun _ => match get_object s oh with Some _ => 1 | None => 0 end));
+     (C_DestroyObject.set_handleManager_getSession (fun _ => 1));
+     (C_DestroyObject.set_haveWrite gen_haveWrite);
+     (C_DestroyObject.set_object_getBooleanValue (fun a d => b2n (obj_bool (match get_object s oh with Some (_, _, o) => o | None => [] end) a d)));
+     (C_DestroyObject.set_object_isValid 1);
+     (C_DestroyObject.set_session_getState (sess_state s x));
+     (C_DestroyObject.set_session_getToken 1);
+     (C_DestroyObject.set_this_isInitialised 1);
+     (C_DestroyObject.set_zz_rest CKR_OK);
+     (C_DestroyObject.set_hSession h);
+     (C_DestroyObject.set_hObject oh)].
 
 Theorem destroy_model_is_code (s : state) (h oh : N) (x : session) :
   st_init s = true -> get_session s h = Some x ->
@@ -251,7 +307,17 @@ Qed.
 Definition model_public (st : N) : bool := negb ((st =? CKS_RO_USER_FUNCTIONS) || (st =? CKS_RW_USER_FUNCTIONS)).
 
 Definition findinit_env (s : state) (h : N) (x : session) (rest : bool -> N) (ptr cnt : N) : C_FindObjectsInit.env :=
-  C_FindObjectsInit.mk (fun _ => 1) (s_op x) 1 (sess_state s x) 1 1 rest h ptr cnt.
+  fold_right (fun f e => f e) C_FindObjectsInit.default
+    [(C_FindObjectsInit.set_handleManager_getSession (fun _ => 1));
+     (C_FindObjectsInit.set_session_getOpType (s_op x));
+     (C_FindObjectsInit.set_session_getSlot 1);
+     (C_FindObjectsInit.set_session_getState (sess_state s x));
+     (C_FindObjectsInit.set_session_getToken 1);
+     (C_FindObjectsInit.set_this_isInitialised 1);
+     (C_FindObjectsInit.set_zz_rest rest);
+     (C_FindObjectsInit.set_hSession h);
+     (C_FindObjectsInit.set_pTemplate ptr);
+     (C_FindObjectsInit.set_ulCount cnt)].
 
 Theorem findinit_code_passes_model_public (s : state) (h : N) (x : session) (rest : bool -> N) (ptr cnt : N) :
   (ptr <> 0 \/ cnt = 0) ->
@@ -292,12 +358,35 @@ Qed.
 (* ---- C_GetAttributeValue / C_SetAttributeValue: the access decision before any attribute is touched ------------------- *)
 Definition obj_of (s : state) (oh : N) : obj := match get_object s oh with Some (_, _, o) => o | None => [] end.
 Definition getattr_env (s : state) (h oh : N) (x : session) (rest ptr cnt : N) : C_GetAttributeValue.env :=
-  C_GetAttributeValue.mk (fun _ => match get_object s oh with Some _ => 1 | None => 0 end) (fun _ => 1)
-                         (fun st _ priv => gen_haveRead st priv)
-                         (fun a d => b2n (obj_bool (obj_of s oh) a d)) 1 (sess_state s x) 1 1 rest h oh ptr cnt.
+  fold_right (fun f e => f e) C_GetAttributeValue.default
+    [(C_GetAttributeValue.set_handleManager_getObject (fun _ => match get_object s oh with Some _ => 1 | None => 0 end));
+     (C_GetAttributeValue.set_handleManager_getSession (fun _ => 1));
+     (C_GetAttributeValue.set_haveRead (fun st _ priv => gen_haveRead st priv));
+     (C_GetAttributeValue.set_object_getBooleanValue (fun a d => b2n (obj_bool (obj_of s oh) a d)));
+     (C_GetAttributeValue.set_object_isValid 1);
+     (C_GetAttributeValue.set_session_getState (sess_state s x));
+     (C_GetAttributeValue.set_session_getToken 1);
+     (C_GetAttributeValue.set_this_isInitialised 1);
+     (C_GetAttributeValue.set_zz_rest rest);
+     (C_GetAttributeValue.set_hSession h);
+     (C_GetAttributeValue.set_hObject oh);
+     (C_GetAttributeValue.set_pTemplate ptr);
+     (C_GetAttributeValue.set_ulCount cnt)].
 Definition setattr_env (s : state) (h oh : N) (x : session) (rest ptr cnt : N) : C_SetAttributeValue.env :=
-  C_SetAttributeValue.mk (fun _ => match get_object s oh with Some _ => 1 | None => 0 end) (fun _ => 1) gen_haveWrite
-                         (fun a d => b2n (obj_bool (obj_of s oh) a d)) 1 (sess_state s x) 1 1 rest h oh ptr cnt.
+  fold_right (fun f e => f e) C_SetAttributeValue.default
+    [(C_SetAttributeValue.set_handleManager_getObject (fun _ => match get_object s oh with Some _ => 1 | None => 0 end));
+     (C_SetAttributeValue.set_handleManager_getSession (fun _ => 1));
+     (C_SetAttributeValue.set_haveWrite gen_haveWrite);
+     (C_SetAttributeValue.set_object_getBooleanValue (fun a d => b2n (obj_bool (obj_of s oh) a d)));
+     (C_SetAttributeValue.set_object_isValid 1);
+     (C_SetAttributeValue.set_session_getState (sess_state s x));
+     (C_SetAttributeValue.set_session_getToken 1);
+     (C_SetAttributeValue.set_this_isInitialised 1);
+     (C_SetAttributeValue.set_zz_rest rest);
+     (C_SetAttributeValue.set_hSession h);
+     (C_SetAttributeValue.set_hObject oh);
+     (C_SetAttributeValue.set_pTemplate ptr);
+     (C_SetAttributeValue.set_ulCount cnt)].
 
 (* the code, in terms of the model's access functions *)
 Theorem getattr_code_guard (s : state) (h oh : N) (x : session) (rest ptr cnt : N) :
